@@ -1,6 +1,9 @@
 package main
 
 import (
+	"verif/internal/kinds"
+	"verif/internal/load"
+	"verif/internal/small"
 	"verif/internal/report"
 	"verif/internal/visitors"
 )
@@ -49,4 +52,28 @@ func init() {
 	extend("C05", "scanner-helpers: the line fields of a node's position are those of its boundary tokens, which setTokenPosition computes from ts and te-1 (seed C05-6).",
 		[]report.Floor{{Rule: "scanner-helpers", What: "facts", Min: 12}},
 		func(c *Ctx) { c.ssaScan("scanner-helpers") })
+}
+
+// token-ids-agree: C03 (the tree PHP prescribes needs the parser to see the token the scanner meant) and C10.
+func init() {
+	run := func(c *Ctx) {
+		c.Fixture("mini", "token-ids-agree", false, func(p *load.Program, tb *kinds.Table) *report.RuleResult {
+			r := small.TokenIDsAgree(p, "pkg/gtok", "ID", "internal/yok")
+			r.Merge(small.TokenIDsAgree(p, "pkg/badgtok", "ID", "internal/yok"), "bad:")
+			return r
+		})
+		if p, _, ok := c.RepoProgram(false); ok {
+			c.Add(small.TokenIDsAgree(p, "pkg/token", "ID", "internal/php5", "internal/php7"))
+		}
+	}
+	for _, id := range []string{"C03", "C10"} {
+		p := properties[id]
+		old := p.Run
+		p.Explanation += " token-ids-agree: every T_ constant of the generated parsers has the value of the constant of the same name in pkg/token (the scanner returns int(token.ID), the parser compares it with its own numbering)."
+		p.Floors = append(p.Floors, report.Floor{Rule: "token-ids-agree", What: "tokens", Min: 260})
+		p.Run = func(c *Ctx) {
+			old(c)
+			run(c)
+		}
+	}
 }
